@@ -562,3 +562,5 @@ func CanonGo(oid int, v any) string {
 	}
 	return fmt.Sprintf("?%T:%v", v, v)
 }
+
+func newTypeMap() *pgtype.Map { return pgtype.NewMap() }
